@@ -1453,6 +1453,11 @@ def gen_c16(tier, rng):
         ]
         hshex = ",".join(hexs(h) for h in hs)
         fixed = [
+            # one buffer refilled between searches (the same address holds other bytes): no-match haystacks first,
+            # then matching ones of the same or a smaller length, both directions, also through clones / as_ref
+            "Q2,Q1,Q4,Q0,Q6,Q1,P2,P1,P4,P0,P6,P1",
+            "P4,P0,Q4,Q0,C,Q2,Q3,P2,P3,O,Q6,Q1,P6,P1,D",
+            "Q2,J1,M,M,Q4,Q3,P2,I1,N,N,P4,P3",
             "F0,F1,F2,F1,F0,D",                              # reuse after a prefilter-exhausting haystack
             "F4,F1,F4,F3,F6,F5",
             "F1,C,F1,O,F1,F0,D,A1,A0",                       # clone / into_owned / as_ref
@@ -1483,8 +1488,8 @@ def gen_c16(tier, rng):
             ops = []
             have_it = have_rit = False
             for _ in range(L):
-                t = rng.choice(["F", "F", "R", "A", "C", "O", "D", "I", "J", "N", "N", "S", "K", "W", "M", "M", "L", "V"])
-                if t in "FRAIJ":
+                t = rng.choice(["F", "F", "R", "A", "C", "O", "D", "I", "J", "N", "N", "S", "K", "W", "M", "M", "L", "V", "P", "Q", "Q"])
+                if t in "FRAIJPQ":
                     t += str(rng.randrange(len(hs)))
                 if t[0] == "I": have_it = True
                 if t[0] == "J": have_rit = True
@@ -1507,9 +1512,9 @@ def oracle_c16(op, kv, res, trace, flags):
     fit = None; rit = None
     for t in kv["ops"].split(","):
         c = t[0]
-        if c in "FA":
+        if c in "FAP":
             i = hs[int(t[1:])].find(x); want.append(("=", "None" if i < 0 else f"Some({i})"))
-        elif c == "R":
+        elif c in "RQ":
             i = hs[int(t[1:])].rfind(x); want.append(("=", "None" if i < 0 else f"Some({i})"))
         elif c == "D":
             want.append(("=", "true"))
